@@ -5,7 +5,7 @@ import io
 import types
 from unittest import mock
 
-from extract_lib import generator, lean_list, write
+from extract_lib import generator, lean_bool, lean_list, write
 
 METHODS = ["GET", "HEAD", "POST"]
 PROTOCOLS = ["HTTP/1.0", "HTTP/1.1"]  # handler.protocol_version (set by the server)
@@ -60,9 +60,10 @@ def run_in_memory(raw_request: bytes, app, protocol_version="HTTP/1.1", want_han
     return h.wfile.getvalue()
 
 
-def run_socketpair(raw_request: bytes, app, protocol_version="HTTP/1.1"):
+def run_socketpair(raw_request: bytes, app, protocol_version="HTTP/1.1", split_at=None, pause=0.02):
     """drive a real WSGIRequestHandler in-process over a socket pair (real sockets, real selectors);
-    returns every byte the client end received"""
+    returns every byte the client end received. `split_at`: the request is written in two pieces
+    (cut at that offset) from a second thread, with a pause between them, while the handler runs"""
     import logging
     import socket
 
@@ -74,13 +75,35 @@ def run_socketpair(raw_request: bytes, app, protocol_version="HTTP/1.1"):
     try:
         c.settimeout(10)
         s.settimeout(10)
-        c.sendall(raw_request)
-        c.shutdown(socket.SHUT_WR)
+        sender = None
+        if split_at is None:
+            c.sendall(raw_request)
+            c.shutdown(socket.SHUT_WR)
+        else:
+            import threading
+            import time
+
+            def send():
+                try:
+                    c.sendall(raw_request[:split_at])
+                    time.sleep(pause)
+                    c.sendall(raw_request[split_at:])
+                    c.shutdown(socket.SHUT_WR)
+                except OSError:
+                    pass
+
+            sender = threading.Thread(target=send, daemon=True)
+            sender.start()
         H(s, ("127.0.0.1", 40000), make_server(app))  # setup(), handle(), finish()
+        if sender is not None:
+            sender.join(10)
         s.close()
         data = b""
         while True:
-            chunk = c.recv(65536)
+            try:
+                chunk = c.recv(65536)
+            except OSError:  # the server closed with request bytes unread: what was received is the answer
+                break
             if not chunk:
                 break
             data += chunk
@@ -121,6 +144,57 @@ def framing_of(code, method, has_cl, protocol, req_version, body=b"hello"):
     return chunked_header, framed
 
 
+def serving_structure():
+    """facts read off the AST of serving.py (no execution): which rfile methods DechunkedInput uses -
+    the model's rfile.read(n) is the *blocking* read ("n bytes unless the stream ends") - and how
+    make_environ unfolds header values"""
+    import ast
+    import os
+
+    from extract_lib import REPO
+
+    tree = ast.parse(open(os.path.join(REPO, "src", "werkzeug", "serving.py")).read())
+    facts = {"rfileMethods": [], "payloadReadIsBlocking": False, "sizeLineIsReadline": False, "valueOps": [], "unfoldIsReplaceCrlf": False}
+    cls = {n.name: n for n in tree.body if isinstance(n, ast.ClassDef)}
+
+    def rfile_calls(node):
+        out = []
+        for n in ast.walk(node):
+            if isinstance(n, ast.Call) and isinstance(n.func, ast.Attribute) and isinstance(n.func.value, ast.Attribute) \
+                    and n.func.value.attr == "_rfile" and isinstance(n.func.value.value, ast.Name) and n.func.value.value.id == "self":
+                out.append(n)
+        return out
+
+    d = cls.get("DechunkedInput")
+    if d is not None:
+        fns = {n.name: n for n in d.body if isinstance(n, ast.FunctionDef)}
+        calls = [c for f in fns.values() for c in rfile_calls(f)]
+        facts["rfileMethods"] = sorted({c.func.attr for c in calls})
+        ri = fns.get("readinto")
+        if ri is not None:
+            payload = [c for c in rfile_calls(ri) if c.args]  # the call that passes a size
+            facts["payloadReadIsBlocking"] = len(payload) == 1 and payload[0].func.attr == "read" and len(payload[0].args) == 1 and not payload[0].keywords
+        rcl = fns.get("read_chunk_len")
+        if rcl is not None:
+            c = rfile_calls(rcl)
+            facts["sizeLineIsReadline"] = len(c) == 1 and c[0].func.attr == "readline" and not c[0].args
+    h = cls.get("WSGIRequestHandler")
+    if h is not None:
+        me = next((n for n in h.body if isinstance(n, ast.FunctionDef) and n.name == "make_environ"), None)
+        if me is not None:
+            loops = [n for n in ast.walk(me) if isinstance(n, ast.For) and isinstance(n.target, ast.Tuple)
+                     and [getattr(e, "id", None) for e in n.target.elts] == ["key", "value"]]
+            if len(loops) == 1:
+                ops = []
+                for n in ast.walk(loops[0]):
+                    if isinstance(n, ast.Assign) and any(isinstance(t, ast.Name) and t.id == "value" for t in n.targets):
+                        ops.append(ast.unparse(n.value))
+                facts["valueOps"] = ops
+                # the only rewriting of the header value: removal of the CRLF of folded lines (and the comma-join)
+                facts["unfoldIsReplaceCrlf"] = ops == ["value.replace('\\r\\n', '')", "f'{environ[key]},{value}'"]
+    return facts
+
+
 def combo_index(mi, cl, pi, ri):
     return ((mi * 2 + cl) * 2 + pi) * 2 + ri
 
@@ -140,7 +214,19 @@ def gen_framing():
                         b |= int(f) << k
         hdr.append(str(a))
         frm.append(str(b))
+    facts = serving_structure()
     body = f"""namespace Wz.Gen.Framing
+
+/-! facts read off the AST of serving.py (tools/gen/c19.py: serving_structure) -/
+
+/-- the methods `DechunkedInput` calls on `self._rfile`: {facts["rfileMethods"]} -/
+def rfileMethodsAreReadAndReadline : Bool := {lean_bool(facts["rfileMethods"] == ["read", "readline"])}
+/-- the chunk payload is fetched by exactly one call `self._rfile.read(n)` -/
+def payloadReadIsBlocking : Bool := {lean_bool(facts["payloadReadIsBlocking"])}
+/-- the size line is fetched by `self._rfile.readline()` -/
+def sizeLineIsReadline : Bool := {lean_bool(facts["sizeLineIsReadline"])}
+/-- in `make_environ`'s header loop the value is rewritten only by {facts["valueOps"]} -/
+def unfoldIsReplaceCrlf : Bool := {lean_bool(facts["unfoldIsReplaceCrlf"])}
 
 def statusLo : Nat := {STATUS_LO}
 def nStatus : Nat := {STATUS_HI - STATUS_LO}
